@@ -276,6 +276,7 @@ def rule_nema(ck, rid="C18.nema"):
 
 
 def rule_datetimes(ck, rid="C18.datetimes"):
+    check_units(ck, rid, ck.repo.fn("datetimes_array"), UNITS["datetimes_array"])     # first: also reports truncation of the period
     f, fl, r, e = single_return(ck, "datetimes_array")
     lst = collect_list(fl, r.expr, r)
     if lst is None or len(lst) != 1:
@@ -302,7 +303,6 @@ def rule_datetimes(ck, rid="C18.datetimes"):
     starts = "sim.start" in canon(e if comp is None else fl.expand(comp[0].elt, r))
     ck.require(good and starts, rid, f, comp[0].elt if comp else r.expr, ok="entry i = start + i x period (minutes)",
                bad="entry i must be sim.start + timedelta(minutes=sim.period * i)", sink="datetimes-step")
-    check_units(ck, rid, f, UNITS["datetimes_array"])
 
 
 def run(ck):
